@@ -7,7 +7,7 @@ set -u
 d=$1; shift
 cd /verif || exit 2
 if ! git -C /repo diff --quiet; then echo "refusing: /repo has uncommitted changes"; exit 2; fi
-git -C /repo apply "$d/patch.diff" || { echo "patch does not apply"; exit 2; }
+git -C /repo apply "$(realpath "$d")/patch.diff" || { echo "patch does not apply"; exit 2; }
 trap 'git -C /repo checkout -- . ; git -C /repo clean -fdq -- src crates 2>/dev/null' EXIT
 for c in "$@"; do
     start=$(date +%s)
